@@ -10,6 +10,7 @@ package main
 //                  (an optional list, a flag) survives into the next one.
 
 import (
+	"go/ast"
 	"go/token"
 	"go/types"
 
@@ -56,7 +57,7 @@ func checkParserSeqRules(w *World, r *Report, rel string, skip func(fn *ssa.Func
 						sinks = append(sinks, c)
 					}
 				}
-				if sc := c.Call.StaticCallee(); sc != nil && sc.String() == "encoding/binary.Read" {
+				if sc := c.Call.StaticCallee(); sc != nil && seqReads[sc.String()] {
 					reads = append(reads, c)
 				}
 			}
@@ -130,7 +131,29 @@ func checkParserSeqRules(w *World, r *Report, rel string, skip func(fn *ssa.Func
 	}
 }
 
+// consumingReads: the calls that take octets off a bytes.Buffer / bytes.Reader.
+var seqReads = map[string]bool{
+	"encoding/binary.Read": true, "io.ReadFull": true,
+	"(*bytes.Buffer).ReadByte": true, "(*bytes.Buffer).Read": true, "(*bytes.Buffer).Next": true,
+	"(*bytes.Reader).ReadByte": true, "(*bytes.Reader).Read": true,
+}
+
 func exprOfRead(c *ssa.Call) string {
+	if sc := c.Call.StaticCallee(); sc == nil || sc.String() != "encoding/binary.Read" {
+		// ReadByte / Next / Read: name the variable the result is bound to, if any
+		for _, ref := range *c.Referrers() {
+			if ex, ok := ref.(*ssa.Extract); ok && ex.Index == 0 {
+				for _, r2 := range *ex.Referrers() {
+					if dr, ok := r2.(*ssa.DebugRef); ok {
+						if id, ok := dr.Expr.(*ast.Ident); ok {
+							return id.Name
+						}
+					}
+				}
+			}
+		}
+		return "the octets taken by " + c.Call.StaticCallee().Name()
+	}
 	v := c.Call.Args[2]
 	for i := 0; i < 6; i++ {
 		switch x := v.(type) {
